@@ -29,7 +29,8 @@ VAL = 'struct Value__char'
 
 # the element accessors of the containers are tiny and are taken as they are (real bodies, inlined)
 AQ, HQ = 'Qentem::Array<Qentem::Value<char>>::', 'Qentem::HashTable<Qentem::String<char>, Qentem::HAItem_T<Qentem::String<char>, Qentem::Value<char>>>::'
-UNCUT = [AQ + 'First', AQ + 'End', AQ + 'Storage', AQ + 'Size', HQ + 'First', HQ + 'Storage', HQ + 'Size', HQ + 'Capacity', HQ + 'getHashTable']
+UNCUT = [AQ + 'First', AQ + 'End', AQ + 'Storage', AQ + 'Size', HQ + 'First', HQ + 'Storage', HQ + 'Size', HQ + 'Capacity', HQ + 'getHashTable',
+         'Qentem::String<char>::IsNotEmpty', 'Qentem::String<char>::IsEmpty', 'Qentem::String<char>::Length', 'Qentem::String<char>::First', 'Qentem::String<char>::Storage']
 CUT_QUAL = ['Qentem::String<char>::', 'Qentem::Array<', 'Qentem::HArray<', 'Qentem::HashTable<', 'Qentem::Digit::NumberToString', 'Qentem::JSONUtils::Escape']
 # g_items / g_nitems: the storage the container accessors hand out (set up by the precondition of the function under contract)
 # (a ghost pointer that is only constrained by an equality must not be dereferenced in a contract: CBMC's value sets do not follow the equality)
@@ -69,7 +70,7 @@ def sv_spec(enforce):
         hs = ['__CPROVER_assume(o_val.type_ == 0 || o_val.type_ == 1 || (o_val.type_ >= 8 && o_val.type_ <= 10));',
               'static struct Value__char qx_tgt; qx_tgt.number_.Natural = 0; qx_tgt.type_ = (unsigned char)(8 + (precision % 3)); if (o_val.type_ == 1) o_val.value_ = &qx_tgt;']
     ens = ens + ['val == g_watch ==> g_seen'] + SEEN
-    return dict(requires=req, ensures=ens, assigns=ASG, harness_setup=hs, ghost_returns=(['if (val == g_watch) g_seen = 1'] if enforce else None),
+    return dict(requires=req, ensures=ens, assigns=ASG, harness_setup=hs, ghost_returns=['if (val == g_watch) g_seen = 1'],
                 cex_stub='  if (val == g_watch) g_seen = 1; if (val->type_ != 0) { g_emit = 1; g_last = (val->type_ == %d) ? 125 : (val->type_ == %d) ? 93 : (val->type_ == %d) ? 34 : 101; }' % (OBJ, ARR, STR))
 
 
@@ -86,7 +87,12 @@ def sa_spec(enforce):
                                     '((unsigned int)__CPROVER_POINTER_OFFSET(item)) %% (unsigned int)sizeof(%s) == 0' % VAL, 'g_emit', 'g_last == 91 || g_last == 44',
                                     '(g_k < arr->index_ && __CPROVER_POINTER_OFFSET(item) > ((__CPROVER_size_t)g_k) * sizeof(%s) && arr->storage_[g_k].type_ != %d) ==> g_seen' % (VAL, UNDEF)],
                          decreases='__CPROVER_POINTER_OFFSET(end) - __CPROVER_POINTER_OFFSET(item)', assigns='item, g_emit, g_last, g_seen')}
-        return dict(requires=req, ensures=ens, assigns=ASG, loops=loops)
+        # bounded search / native replay only: a well-formed array of up to K keyword / Undefined values (kinds drawn as inputs)
+        hs = ['o_arr.capacity_ = o_arr.index_; o_arr.storage_ = (struct Value__char *)malloc((o_arr.index_ ? o_arr.index_ : 1) * sizeof(struct Value__char)); __builtin_memset(o_arr.storage_, 0, (o_arr.index_ ? o_arr.index_ : 1) * sizeof(struct Value__char));',
+              'for (unsigned int qi = 0; qi < o_arr.index_; qi++) { __CPROVER_assume(qx_kinds[qi] == 0 || (qx_kinds[qi] >= 8 && qx_kinds[qi] <= 10)); o_arr.storage_[qi].type_ = qx_kinds[qi]; }',
+              'if (g_k < o_arr.index_) g_watch = o_arr.storage_ + g_k;']
+        return dict(requires=req, ensures=ens, assigns=ASG, loops=loops, harness_setup=hs, obj_buffers=[('qx_kinds', 'o_arr.index_', 'unsigned char')], native_both=True,
+                    cex_stub='  g_emit = 1; g_last = 93;')
     return dict(requires=['__CPROVER_r_ok(arr, sizeof(*arr))'], ensures=ens + SEEN, assigns=ASG, cex_stub='  g_emit = 1; g_last = 93;')
 
 
@@ -105,7 +111,16 @@ def so_spec(enforce):
                                     '((unsigned int)(__CPROVER_POINTER_OFFSET(h_item) - 4 * (__CPROVER_size_t)obj->qx_base.capacity_)) %% (unsigned int)sizeof(%s) == 0' % ITEM, 'g_emit', 'g_last == 123 || g_last == 44',
                                     '(g_k < obj->qx_base.index_ && __CPROVER_POINTER_OFFSET(h_item) > 4 * (__CPROVER_size_t)obj->qx_base.capacity_ + ((__CPROVER_size_t)g_k) * sizeof(%s) && ((%s *)(obj->qx_base.hashTable_ + obj->qx_base.capacity_))[g_k].Value.type_ != %d) ==> g_seen' % (ITEM, ITEM, UNDEF)],
                          decreases='__CPROVER_POINTER_OFFSET(end) - __CPROVER_POINTER_OFFSET(h_item)', assigns='h_item, g_emit, g_last, g_seen')}
-        return dict(requires=req, ensures=ens, assigns=ASG, loops=loops)
+        # bounded search / native replay only: a well-formed table (one block: bucket heads, then the slots) of up to K members with
+        # keyword / Undefined values; keys are empty or the one-unit string "k" (key lengths drawn as inputs)
+        hs = ['o_obj.qx_base.capacity_ = o_obj.qx_base.index_;',
+              'o_obj.qx_base.hashTable_ = (unsigned int *)malloc((o_obj.qx_base.capacity_ ? o_obj.qx_base.capacity_ : 1) * (sizeof(unsigned int) + sizeof(%s))); __builtin_memset(o_obj.qx_base.hashTable_, 0, (o_obj.qx_base.capacity_ ? o_obj.qx_base.capacity_ : 1) * (sizeof(unsigned int) + sizeof(%s)));' % (ITEM, ITEM),
+              '{ %s *qs = (%s *)(o_obj.qx_base.hashTable_ + o_obj.qx_base.capacity_); static char qx_key[1] = {107};' % (ITEM, ITEM),
+              '  for (unsigned int qi = 0; qi < o_obj.qx_base.index_; qi++) { __CPROVER_assume(qx_kinds[qi] == 0 || (qx_kinds[qi] >= 8 && qx_kinds[qi] <= 10)); __CPROVER_assume(qx_klen[qi] <= 1);',
+              '    qs[qi].Value.type_ = qx_kinds[qi]; qs[qi].Key.length_ = qx_klen[qi]; qs[qi].Key.storage_ = qx_klen[qi] ? qx_key : (char *)0; qs[qi].Hash = 1 + qi; }',
+              '  if (g_k < o_obj.qx_base.index_) g_watch = &qs[g_k].Value; }']
+        return dict(requires=req, ensures=ens, assigns=ASG, loops=loops, harness_setup=hs, native_both=True, cex_stub='  g_emit = 1; g_last = 125;',
+                    obj_buffers=[('qx_kinds', 'o_obj.qx_base.index_', 'unsigned char'), ('qx_klen', 'o_obj.qx_base.index_', 'unsigned char')])
     return dict(requires=['__CPROVER_r_ok(obj, sizeof(*obj))'], ensures=ens + SEEN, assigns=ASG, cex_stub='  g_emit = 1; g_last = 125;')
 
 
@@ -142,12 +157,10 @@ def stream_specs():
         FN_N_U64: dict(assigns=['g_emit', 'g_last'], ensures=['g_emit'], stub_body='  g_emit = 1; g_last = 48;'),
         FN_N_I64: dict(assigns=['g_emit', 'g_last'], ensures=['g_emit'], stub_body='  g_emit = 1; g_last = 48;'),
         FN_N_DBL: dict(assigns=['g_emit', 'g_last'], ensures=['g_emit'], stub_body='  g_emit = 1; g_last = 48;'),
-        FN_STR_FIRST: dict(assigns=[], ensures=[], stub_body='  return self->storage_;'),
-        FN_STR_LEN: dict(assigns=[], ensures=[], stub_body='  return self->length_;'),
     }
 
 
-LEAVES = [FN_ADD, FN_WRITE, FN_LAST, FN_ESC, FN_N_U64, FN_N_I64, FN_N_DBL, FN_STR_FIRST, FN_STR_LEN]
+LEAVES = [FN_ADD, FN_WRITE, FN_LAST, FN_ESC, FN_N_U64, FN_N_I64, FN_N_DBL]
 
 
 FN_SV_REC, FN_PUB_REC = FN_SV + '_rec', FN_PUB + '_rec'
@@ -180,5 +193,6 @@ def jobs():
         out.append(dict(name='Value<char>.%s' % nm, unit=UNIT, fn=fn, roots=[root], cut_qual=CUT_QUAL, specs=sp, replace=LEAVES + others, ghosts=GHOSTS, prune_specs=True,
                         call_rename=rename, uncut_qual=UNCUT, solver='cadical', timeout=900, objbits=10, split=(12 if fn in (FN_SA, FN_SO) else 0), cbmc_flags=['--slice-formula'], must_have=['postcondition'], clause=clause,
                         cex_K=3, cex_unwind=6, cex_recursive=[FN_SV, FN_SA, FN_SO, FN_PUB],
-                        cex_skip=(None if fn == FN_SV else 'its inputs are linked containers with owned storage, which the generated harness cannot build')))
+                        pre='static unsigned char *qx_kinds; static unsigned char *qx_klen;\n',
+                        cex_skip=(None if fn != FN_PUB else 'its inputs are linked containers with owned storage, which the generated harness cannot build')))
     return out
